@@ -3,9 +3,9 @@
     On the GENERATED constants of src/data/num/church.rs:
     (1) for ALL m, n: each of the 23 operations applied to the encodings of its arguments is
         beta-convertible (reduces) to the encoding of the mathematically expected result;
-    (2) hence (C07) reduce with NOR and limit 0 returns exactly that encoding, for all m, n, and
-        (C06) whatever HNO, APP or HAP return, if they return, is that encoding;
-    (3) termination of HNO / HAP / APP is proved only on a grid whose bound is in the statement
+    (2) hence (C07) reduce with NOR or HNO and limit 0 returns exactly that encoding, for all m, n,
+        and (C06) whatever APP or HAP return, if they return, is that encoding;
+    (3) termination of HAP / APP is proved only on a grid whose bound is in the statement
         (m, n <= 3), by in-kernel evaluation of the model of reduce. *)
 From LC Require Import Spec.Encodings Spec.Confluence Spec.NorEval Model.Reduction Gen.Terms
   Proofs.Sound Proofs.ReduceProps Proofs.Normalise Proofs.Convert Proofs.Grids Proofs.ChurchArith.
@@ -59,6 +59,8 @@ Qed.
 (** from convertibility to what the crate's reducer returns *)
 Theorem C13_nor_returns : forall t v, red t v -> nfb v = true -> exists fuel c, reduce_m fuel NOR 0 t = Some (v, c).
 Proof. exact nor_normalises. Qed.
+Theorem C13_hno_returns : forall t v, red t v -> nfb v = true -> exists fuel c, reduce_m fuel HNO 0 t = Some (v, c).
+Proof. exact hno_reduce_normalises. Qed.
 
 Theorem C13_any_order_sound : forall o fuel t v u c, (o = NOR \/ o = HNO \/ o = APP \/ o = HAP) ->
   red t v -> nfb v = true -> reduce_m fuel o 0 t = Some (u, c) -> u = v.
@@ -91,6 +93,7 @@ Print Assumptions C13_arithmetic.
 Print Assumptions C13_division.
 Print Assumptions C13_comparisons.
 Print Assumptions C13_nor_returns.
+Print Assumptions C13_hno_returns.
 Print Assumptions C13_any_order_sound.
 Print Assumptions C13_nor_add.
 Print Assumptions C13_bounded_grid.
